@@ -25,7 +25,7 @@ func (c07) ID() string { return "C07" }
 func (c07) Meta(tier string) engine.Meta {
 	return engine.Meta{
 		Level: "model_checking",
-		Rule: "all pairs (compile-time binding of x, run-time binding of x) over 19 values of 15 types (scalars, lists, maps, objects in both field orders, empty object, optionals present / absent) plus the run-time mutations {x missing, y missing, extra name z, y of another type}, × 7 representation pairs (raw→raw, map→map, struct→struct, map→struct, struct→map, raw→map, map→raw), × 6 programs containing tracers, × map-iteration seeds 1..8; plus every history of <= 3 invocations of one Callable drawn from {matching, matching with other values, type mismatch, missing name, same Go type with a nil pointer where the sample had a value}, for raw / map / struct environments and for ONE raw environment object rebound in place between invocations. plus 13 run-time values of the sample's Go type whose nested elements differ in type (maps of slices, slices of maps, struct fields ...) x 4 back ends x map seeds 1..8, each between two good calls. Oracle: accepted iff every compile-time name is present with a structurally equal type (fields by name); on rejection: an error, an EMPTY host-call trace and no panic; on acceptance: value and trace equal the reference evaluator's; each invocation's outcome is independent of the history before it. non-trivial = every case",
+		Rule: "all pairs (compile-time binding of x, run-time binding of x) over 19 values of 15 types (scalars, lists, maps, objects in both field orders, empty object, optionals present / absent) plus the run-time mutations {x missing, y missing, extra name z, y of another type}, × 7 representation pairs (raw→raw, map→map, struct→struct, map→struct, struct→map, raw→map, map→raw), × 6 programs containing tracers, × map-iteration seeds 1..8; plus every history of <= 3 invocations of one Callable drawn from {matching, matching with other values, type mismatch, missing name, same Go type with a nil pointer where the sample had a value}, for raw / map / struct environments and for ONE raw environment object rebound in place between invocations. plus 13 run-time values of the sample's Go type whose nested elements differ in type (maps of slices, slices of maps, struct fields ...) x 4 back ends x map seeds 1..8, each between two good calls. plus 8 scripts on hand-written Go types: the same field with 8 other numeric kinds (accepted) and other constructors (rejected), two different struct types carrying one Go name seen through empty slices / nil pointers, a compile-time *types.Env in which a name was bound twice. Oracle: accepted iff every compile-time name is present with a structurally equal type (fields by name); on rejection: an error, an EMPTY host-call trace and no panic; on acceptance: value and trace equal the reference evaluator's; each invocation's outcome is independent of the history before it. non-trivial = every case",
 		Bound: "two names; histories of length <= 3",
 		Assumptions: []string{"the type of a host value is what the reference derives from its description (C15 checks that conversion agrees)"},
 	}
@@ -112,6 +112,11 @@ func (c07) Generate(tier string, yield func(*engine.Case) bool) {
 			}
 		}
 	}
+	c07ScriptCases(func(c *engine.Case) {
+		if ok && !yield(c) {
+			ok = false
+		}
+	})
 	c07BadCases(func(c *engine.Case) {
 		if ok && !yield(c) {
 			ok = false
@@ -230,6 +235,9 @@ func describeVal(o *real.Obs) string {
 
 func (c07) Run(c *engine.Case) *engine.Result {
 	res := &engine.Result{NonTrivial: true}
+	if len(c.Args) > 0 && c.Args[0] == "script" {
+		return runC07Script(c)
+	}
 	if len(c.Args) > 0 && c.Args[0] == "bad" {
 		return runC07Bad(c)
 	}
@@ -244,6 +252,7 @@ func (c07) Run(c *engine.Case) *engine.Result {
 	src := prog.Render()
 	var outs []string
 	for seed := 1; seed <= 8; seed++ {
+		engine.Heartbeat()
 		seams.SetMapSeed(seed)
 		h := real.StdHost()
 		o := real.Run2(real.VMSwitch, h, src, d.Compile, d.Run)
